@@ -55,8 +55,8 @@ func (vn *VNet) startJoin(j *NNode, via *NNode, accept bool) *pendingOp {
 	return op
 }
 
-func (vn *VNet) startLeave(l *NNode) *pendingOp {
-	op := &pendingOp{kind: "leave", n: l, done: make(chan error, 1), accept: true}
+func (vn *VNet) startLeave(l *NNode, accept bool) *pendingOp {
+	op := &pendingOp{kind: "leave", n: l, done: make(chan error, 1), accept: accept}
 	go func() { op.done <- l.core.Leave(600 * time.Second) }()
 	vn.awaitItx(op, "rem", l.num)
 	return op
@@ -147,10 +147,15 @@ func runDyn(o *Opts) *Summary {
 	s := &Summary{Mode: "dyn", Extra: map[string]interface{}{}}
 	var w *World
 	joins, leaves, refused := 0, 0, 0
+	sigInj := map[string]int{}
 	for t := 0; t < o.Traces; t++ {
 		n0 := o.N
 		if n0 == 0 {
 			n0 = 2 + t%3
+		}
+		growth := o.Arg == "growth"
+		if growth {
+			n0 = 3
 		}
 		w2 := NewWorld(o.Seed*1000+int64(t), n0)
 		if w == nil {
@@ -176,6 +181,12 @@ func runDyn(o *Opts) *Summary {
 		ops := []*pendingOp{}
 		left := []*NNode{}
 		nextOp := 30 + w.rng.Intn(40)
+		// Byzantine validators (only their block-signature payloads are hostile):
+		// one genesis validator when there are at least four, and every joiner
+		byz := map[int]bool{}
+		if n0 >= 4 {
+			byz[n0] = true
+		}
 		for k := 0; k < o.Steps; k++ {
 			if w.rng.Float64() < o.TxP {
 				tgt := active[w.rng.Intn(len(active))]
@@ -198,7 +209,11 @@ func runDyn(o *Opts) *Summary {
 							validators = append(validators, n)
 						}
 					}
-					switch c := w.rng.Intn(5); {
+					c := w.rng.Intn(5)
+					if growth {
+						c = 0 // the validator set only grows (3 -> 8)
+					}
+					switch {
 					case c <= 2 || len(validators) <= 2: // join (new participant, or one that left)
 						var p *Part
 						if len(left) > 0 && w.rng.Intn(2) == 0 {
@@ -211,23 +226,31 @@ func runDyn(o *Opts) *Summary {
 							break
 						}
 						via := validators[w.rng.Intn(len(validators))]
-						accept := w.rng.Intn(5) > 0
+						accept := w.rng.Intn(5) > 0 || growth
 						j := vn.NewNode(p, gen, []int{via.num}, NodeOpts{Store: "inmem", Cache: o.Cache, SyncLimit: 40})
 						j.node.Init()
 						vn.emitNodeUp(j, "join")
 						ops = append(ops, vn.startJoin(j, via, accept))
 						active = append(active, j)
+						byz[j.num] = true
 						joins++
 						if !accept {
 							refused++
 						}
 					default: // leave
 						l := validators[w.rng.Intn(len(validators))]
-						ops = append(ops, vn.startLeave(l))
+						acc := w.rng.Intn(4) > 0 // the application refuses some leave requests
+						ops = append(ops, vn.startLeave(l, acc))
 						leaves++
+						if !acc {
+							refused++
+						}
 					}
 				}
 				nextOp = k + 25 + w.rng.Intn(70)
+				if growth {
+					nextOp = k + 20 + w.rng.Intn(25)
+				}
 			}
 			// gossip among nodes that are babbling
 			bab := []*NNode{}
@@ -246,6 +269,20 @@ func runDyn(o *Opts) *Summary {
 				vn.Monologue(bab[0])
 			}
 			ops = vn.poll(ops)
+			// Byzantine signature payloads
+			if k%9 == 4 {
+				cands := []*NNode{}
+				for _, n := range active {
+					if n.State() == "Babbling" && byz[n.num] {
+						cands = append(cands, n)
+					}
+				}
+				if len(cands) > 0 {
+					if kd := vn.injectSigs(cands[w.rng.Intn(len(cands))]); kd != "" {
+						sigInj[kd]++
+					}
+				}
+			}
 			// heartbeat duties: a removed node suspends itself
 			for _, n := range active {
 				if n.State() == "Babbling" {
@@ -295,10 +332,86 @@ func runDyn(o *Opts) *Summary {
 	s.Extra["joins"] = joins
 	s.Extra["leaves"] = leaves
 	s.Extra["refused_by_app"] = refused
+	s.Extra["adversarial_signature_events"] = sigInj
 	s.Traces = o.Traces
 	s.Lines = w.lines
 	w.CloseTrace()
 	return s
+}
+
+// injectSigs: a Byzantine validator (an otherwise honest real node) publishes
+// an event, signed with its own key on top of its own head, that carries
+// adversarial block signatures.  The event goes through the node's own core so
+// that the node never forks.
+func (vn *VNet) injectSigs(x *NNode) string {
+	w := vn.w
+	last := x.store.LastBlockIndex()
+	if last < 0 || x.core.Head() == "" {
+		return ""
+	}
+	kinds := []string{"other-body", "old-block", "duplicate", "future-index", "negative-index", "recent-block"}
+	kind := kinds[w.rng.Intn(len(kinds))]
+	var sigs []hg.BlockSignature
+	pick := func(idx int) *hg.Block {
+		b, err := x.store.GetBlock(idx)
+		if err != nil {
+			return nil
+		}
+		return b
+	}
+	switch kind {
+	case "other-body": // a signature over a body that differs from the delivered one
+		if b := pick(w.rng.Intn(last + 1)); b != nil {
+			cp := *b
+			cp.Body.Transactions = append(append([][]byte{}, b.Body.Transactions...), []byte("forged"))
+			if sg, err := cp.Sign(x.part.Key); err == nil {
+				sg.Index = b.Index()
+				sigs = append(sigs, sg)
+			}
+		}
+	case "old-block", "recent-block", "duplicate": // valid signatures; the signer may not belong to the block's round
+		idx := 0
+		if kind != "old-block" {
+			idx = last - w.rng.Intn(minInt(3, last+1))
+		} else {
+			idx = w.rng.Intn(minInt(3, last+1))
+		}
+		if b := pick(idx); b != nil {
+			if sg, err := b.Sign(x.part.Key); err == nil {
+				sigs = append(sigs, sg)
+			}
+		}
+	case "future-index":
+		if b := pick(last); b != nil {
+			if sg, err := b.Sign(x.part.Key); err == nil {
+				sg.Index = last + 50 + w.rng.Intn(100)
+				sigs = append(sigs, sg)
+			}
+		}
+	case "negative-index":
+		if b := pick(last); b != nil {
+			if sg, err := b.Sign(x.part.Key); err == nil {
+				sg.Index = -1 - w.rng.Intn(5)
+				sigs = append(sigs, sg)
+			}
+		}
+	}
+	if len(sigs) == 0 {
+		return ""
+	}
+	ev := hg.NewEvent(nil, nil, sigs, []string{x.core.Head(), ""}, x.part.Pub, x.core.Seq()+1)
+	if err := ev.Sign(x.part.Key); err != nil {
+		return ""
+	}
+	before := x.beforeSync()
+	x.node.VLockCore()
+	err := x.core.InsertEventAndRunConsensus(ev, true)
+	if err == nil {
+		err = x.core.ProcessSigPool()
+	}
+	x.node.VUnlockCore()
+	vn.afterCrafted(x, err, before, kind)
+	return kind
 }
 
 func (vn *VNet) pendingFor(ops []*pendingOp, n *NNode) bool {
